@@ -242,9 +242,13 @@ impl Co {
     }
     /// a `!=` leaf that is materialised through the no-op `NotEquals`: not linearised (nested inside
     /// and/or/not, or with a non-linear side) and not a side of a reified `or` (`int_ne_reif` works)
+    /// a `!=` leaf that goes through the `NotEquals` propagator (nested or non-linear) AND mentions a
+    /// float variable: `NotEquals` only checks sides with `min == max`, which a float variable
+    /// ("fixed" = narrower than its step) need not reach, and mixed int/float sides never compare equal
     fn has_noop_ne(&self, lc: &LCase, top: bool) -> bool {
         match self {
-            Co::Bin(l, "ne", r) => !(top && l.fold().is_linear() && r.fold().is_linear()),
+            Co::Bin(l, "ne", r) => !(top && l.fold().is_linear() && r.fold().is_linear())
+                && { let mut vs = vec![]; l.vars(&mut vs); r.vars(&mut vs); vs.iter().any(|v| lc.is_float_var(*v)) },
             Co::Bin(..) => false,
             Co::Or(a, b) => !self.special_or() && !self.reified_or(lc) && (a.has_noop_ne(lc, false) || b.has_noop_ne(lc, false)),
             Co::And(a, b) => a.has_noop_ne(lc, false) || b.has_noop_ne(lc, false),
@@ -259,7 +263,9 @@ impl Co {
         if top && self.is_all_zero_row() { return "lin-all-zero-coefficients"; }
         if self.has(&|c| matches!(c, Co::Not(_))) { return "not-ignored"; }
         if self.has_or_as_and(lc) { return "or-lowered-as-and"; }
-        if self.has_noop_ne(lc, top) { return "neq-noop"; }
+        // since fix 1172f09 a `!=` that goes through `NotEquals` is checked on integer sides (no
+        // `neq-noop` matcher any more); on float variables it still is not: `float-ne-ignored`
+        if self.has_noop_ne(lc, top) { return "float-ne-ignored"; }
         "-"
     }
 }
@@ -762,7 +768,7 @@ impl Co {
         if let Co::Bin(l, op, r) = self {
             let c = classify(lc, l, op, r);
             if c.immediate { return "-"; }
-            if !c.linear { return if *op == "ne" { "neq-noop" } else { "-" }; }
+            if !c.linear { return if *op == "ne" && c.has_float_var { "float-ne-ignored" } else { "-" }; }
             if c.int_lowered {
                 if c.all_zero { return "lin-all-zero-coefficients"; }
                 if !c.has_float_var { return "-"; }
